@@ -1,11 +1,343 @@
-(* Property C14 — theorems only (work in progress: rank-one part). *)
+(* Property C14 — theorems only.
+   Model: Model/C14_exec.v (generic in the scalar type; here instantiated with an arbitrary real
+   closed field R through [ROps exp_ round_], exp_ being an oracle with 0 < exp_ x and round_ an
+   arbitrary function).  Matrix identities: Proofs/C14_RankOne.v (mathcomp matrices, any dimension).
+   Regime N3 (DESIGN 2.4): real-number semantics; floating-point rounding is not verified. *)
+From Coq Require Import ZArith.
 From mathcomp Require Import all_ssreflect all_algebra.
-From DV Require Import Proofs.C14_RankOne.
-Import GRing.Theory Num.Theory.
+From DV Require Import Model.C14_exec Proofs.C14_RankOne Proofs.C14_Elitist Proofs.C14_Active Proofs.C14_MO.
+Import Order.TTheory GRing.Theory Num.Theory.
+Set Implicit Arguments. Unset Strict Implicit. Unset Printing Implicit Defensive.
 Local Open Scope ring_scope.
 
-Theorem C14_rank_one_cov : forall (R : rcfType) (n : nat) (A iA : 'M[R]_n) (v : 'cV[R]_n) (alpha beta : R),
+(* ========================================================================================= *)
+(* (1+lambda), plain: StrategyOnePlusLambda                                                   *)
+(* ========================================================================================= *)
+Section Plain.
+Variables (R : rcfType) (exp_ round_ : R -> R).
+Hypothesis exp_pos : forall x, 0 < exp_ x.
+Notation RO := (ROps exp_ round_).
+Variables (P : pparams (T:=R)) (evalf : seq R -> seq R).
+
+(* after any history of generate/evaluate/update rounds (any draws, any evaluation function):
+   the parent's fitness is the fitness of its genotype, it is at least as good as the initial
+   fitness and every fitness evaluated so far, and it is one of them *)
+Theorem C14_parent_matches_genotype_and_is_best_so_far :
+  forall (st0 : pstate (T:=R)) draws st log,
+  plain_run RO P evalf st0 draws [::] = Some (st, log) ->
+  ps_pfit st0 = evalf (ps_parent st0) ->
+  [/\ ps_pfit st = evalf (ps_parent st),
+      all (fun f => lex_le RO f (ps_pfit st)) (ps_pfit st0 :: log) &
+      ps_pfit st \in ps_pfit st0 :: log].
+Proof. exact: plain_history_elitist. Qed.
+
+(* the parent's fitness never gets worse between two points of a history *)
+Theorem C14_parent_never_worse :
+  forall (st0 : pstate (T:=R)) d1 d2 st2 log2,
+  plain_run RO P evalf st0 (d1 ++ d2) [::] = Some (st2, log2) ->
+  ps_pfit st0 = evalf (ps_parent st0) ->
+  exists st1 log1, plain_run RO P evalf st0 d1 [::] = Some (st1, log1) /\
+                   lex_le RO (ps_pfit st1) (ps_pfit st2).
+Proof. exact: plain_history_monotone. Qed.
+
+(* replacement exactly under  parent.fitness <= best offspring fitness, by the first best *)
+Theorem C14_parent_replaced_iff :
+  forall (st : pstate (T:=R)) pop st' sorted best,
+  plain_update RO P st pop = Some (st', sorted) ->
+  first_max (ind_le exp_ round_) pop = Some best ->
+  (ps_parent st', ps_pfit st') =
+  (if lex_le RO (ps_pfit st) best.2 then best else (ps_parent st, ps_pfit st)).
+Proof. exact: plain_update_replaced_iff. Qed.
+
+(* success rate in [0,1], step size positive, along any history with lambda rows per draw *)
+Theorem C14_psucc_in_01_sigma_pos :
+  forall (st0 : pstate (T:=R)) draws st log,
+  plain_run RO P evalf st0 draws [::] = Some (st, log) ->
+  0 <= pp_cp P <= 1 -> all (fun arz : seq (seq R) => size arz == pp_lambda P) draws ->
+  0 <= ps_psucc st0 <= 1 -> 0 < ps_sigma st0 ->
+  0 <= ps_psucc st <= 1 /\ 0 < ps_sigma st.
+Proof. exact: plain_history_psucc_sigma. Qed.
+
+(* the covariance follows the published success rule (both branches), the path likewise, and the
+   sampling factor is the Cholesky routine applied to the new covariance *)
+Theorem C14_C_follows_success_rule :
+  forall (st : pstate (T:=R)) pop st' sorted,
+  plain_update RO P st pop = Some (st', sorted) ->
+  exists best : pind (T:=R),
+  [/\ first_max (ind_le exp_ round_) pop = Some best,
+      sorted = sort_desc (fun a b => lex_lt RO a.2 b.2) pop,
+      ps_psucc st' = (1 - pp_cp P) * ps_psucc st
+                     + pp_cp P * ((count (fun ind : pind (T:=R) => lex_le RO (ps_pfit st) ind.2) pop)%:R / (pp_lambda P)%:R),
+      ps_sigma st' = ps_sigma st * exp_ (1 / pp_d P * (ps_psucc st' - pp_ptarg P) / (1 - pp_ptarg P)) &
+      ps_A st' = cholesky RO (ps_C st')] /\
+      if lex_le RO (ps_pfit st) best.2 then
+        [/\ ps_parent st' = best.1, ps_pfit st' = best.2 &
+            if ps_psucc st' < pp_pthresh P then
+              ps_pc st' = vadd RO (vscale RO (1 - pp_cc P) (ps_pc st))
+                            (vscale RO (Num.sqrt (pp_cc P * (2%:R - pp_cc P)))
+                                    (vdivs RO (vsub RO best.1 (ps_parent st)) (ps_sigma st))) /\
+              ps_C st' = madd RO (mscale RO (1 - pp_ccov P) (ps_C st))
+                                 (mscale RO (pp_ccov P) (outer RO (ps_pc st') (ps_pc st')))
+            else
+              ps_pc st' = vscale RO (1 - pp_cc P) (ps_pc st) /\
+              ps_C st' = madd RO (mscale RO (1 - pp_ccov P) (ps_C st))
+                            (mscale RO (pp_ccov P)
+                               (madd RO (outer RO (ps_pc st') (ps_pc st'))
+                                        (mscale RO (pp_cc P * (2%:R - pp_cc P)) (ps_C st))))]
+      else [/\ ps_parent st' = ps_parent st, ps_pfit st' = ps_pfit st, ps_pc st' = ps_pc st & ps_C st' = ps_C st].
+Proof. exact: plain_update_spec. Qed.
+End Plain.
+Print Assumptions C14_parent_matches_genotype_and_is_best_so_far.
+Print Assumptions C14_parent_never_worse.
+Print Assumptions C14_parent_replaced_iff.
+Print Assumptions C14_psucc_in_01_sigma_pos.
+Print Assumptions C14_C_follows_success_rule.
+
+(* cp in (0,1) etc. from the default formulas of computeParams *)
+Theorem C14_plain_defaults_in_range :
+  forall (R : rcfType) (exp_ round_ : R -> R) dim lam, (0 < lam)%nat ->
+  let P := plain_defaults (ROps exp_ round_) dim lam in
+  [/\ 0 < pp_cp P < 1, 0 < pp_ptarg P < 1, 0 < pp_d P, 0 < pp_ccov P < 1 & 0 < pp_cc P <= 1].
+Proof. move=> R e r; exact: plain_defaults_ok. Qed.
+Print Assumptions C14_plain_defaults_in_range.
+
+(* ========================================================================================= *)
+(* (1+lambda), active: StrategyActiveOnePlusLambda — elitism                                   *)
+(* ========================================================================================= *)
+Section ActiveElitism.
+Variables (R : rcfType) (exp_ round_ : R -> R).
+Hypothesis exp_pos : forall x, 0 < exp_ x.
+Notation RO := (ROps exp_ round_).
+Variables (dim : nat) (P : aparams (T:=R)) (evalfit : seq R -> fitness (T:=R)).
+
+Theorem C14_active_parent_elitist :
+  forall (st0 : astate (T:=R)) draws st log,
+  active_run RO dim P evalfit st0 draws [::] = Some (st, log) ->
+  as_pfit st0 = Some (evalfit (as_parent st0)) ->
+  exists pf, [/\ as_pfit st = Some (evalfit (as_parent st)), as_pfit st = Some pf,
+                 c_le RO (evalfit (as_parent st0)) pf,
+                 all (fun f => f_valid f ==> c_le RO f pf) log &
+                 pf \in evalfit (as_parent st0) :: log].
+Proof. exact: active_history_elitist. Qed.
+
+(* one update from an evaluated parent: never worse, at least as good as every evaluated
+   offspring, and either unchanged or an evaluated offspring at least as good as the old parent *)
+Theorem C14_active_update_elitist :
+  forall (st : astate (T:=R)) pop invs pf,
+  as_pfit st = Some pf ->
+  let st' := (active_update RO dim P st pop invs).1 in
+  exists pf', [/\ as_pfit st' = Some pf', c_le RO pf pf',
+     all (fun i => c_le RO (ai_fit i) pf') (valid_pop pop) &
+     (as_parent st' = as_parent st /\ pf' = pf) \/
+     exists2 i, i \in valid_pop pop &
+        [/\ as_parent st' = ai_x i, pf' = ai_fit i & c_le RO pf (ai_fit i)]].
+Proof. exact: active_update_elitist. Qed.
+
+(* a parent without fitness attribute is replaced by the first best evaluated offspring *)
+Theorem C14_active_bare_parent :
+  forall (st : astate (T:=R)) pop invs best,
+  as_pfit st = None -> first_max (ai_le exp_ round_) (valid_pop pop) = Some best ->
+  let st' := (active_update RO dim P st pop invs).1 in
+  [/\ as_parent st' = ai_x best, as_pfit st' = Some (ai_fit best) &
+      all (fun i => c_le RO (ai_fit i) (ai_fit best)) (valid_pop pop)].
+Proof. exact: active_update_bare. Qed.
+
+Theorem C14_active_psucc_in_01_sigma_pos :
+  forall (st0 : astate (T:=R)) draws st log,
+  active_run RO dim P evalfit st0 draws [::] = Some (st, log) ->
+  0 <= ap_cp P <= 1 -> 0 <= as_psucc st0 <= 1 -> 0 < as_sigma st0 ->
+  0 <= as_psucc st <= 1 /\ 0 < as_sigma st.
+Proof. exact: active_history_psucc_sigma. Qed.
+End ActiveElitism.
+Print Assumptions C14_active_parent_elitist.
+Print Assumptions C14_active_update_elitist.
+Print Assumptions C14_active_bare_parent.
+Print Assumptions C14_active_psucc_in_01_sigma_pos.
+
+Theorem C14_active_defaults_in_range :
+  forall (R : rcfType) (exp_ round_ : R -> R) dim lam (ccovn : R) S_int, (0 < lam)%nat -> 0 <= ccovn ->
+  let P := active_defaults (ROps exp_ round_) dim lam ccovn S_int in
+  [/\ 0 < ap_cp P < 1, 0 < ap_ptarg P < 1, 0 < ap_ccovp P < 1,
+      ap_ccovp P * (1 + ap_cc P * (2%:R - ap_cc P)) < 1 & 0 < ap_beta P < 1].
+Proof. move=> R e r; exact: active_defaults_ok. Qed.
+Print Assumptions C14_active_defaults_in_range.
+
+(* ========================================================================================= *)
+(* rank-one update of a factor and of its inverse (any dimension n, any real closed field)      *)
+(* ========================================================================================= *)
+Theorem C14_rank_one_cov :
+  forall (R : rcfType) (n : nat) (A iA : 'M[R]_n) (v : 'cV[R]_n) (alpha beta : R),
   iA *m A = 1%:M -> nrm2 (iA *m v) != 0 -> 0 < alpha -> 0 <= 1 + beta / alpha * nrm2 (iA *m v) ->
   A' A iA v alpha beta *m (A' A iA v alpha beta)^T = alpha *: (A *m A^T) + beta *: (v *m v^T).
-Proof. exact: rank_one_cov. Qed.
+Proof. move=> R n; exact: rank_one_cov. Qed.
 Print Assumptions C14_rank_one_cov.
+
+Theorem C14_rank_one_inv :
+  forall (R : rcfType) (n : nat) (A iA : 'M[R]_n) (v : 'cV[R]_n) (alpha beta : R),
+  iA *m A = 1%:M -> nrm2 (iA *m v) != 0 -> 0 < alpha -> 0 < 1 + beta / alpha * nrm2 (iA *m v) ->
+  iA' iA v alpha beta *m A' A iA v alpha beta = 1%:M.
+Proof. move=> R n; exact: rank_one_inv. Qed.
+Print Assumptions C14_rank_one_inv.
+
+(* StrategyMultiObjective._rankOneUpdate, both success-rate branches are instances
+   (alpha = 1 - ccov or 1 - ccov + cc (2 - cc), beta = ccov >= 0); a skipped update is alpha = 1, beta = 0 *)
+Theorem C14_mo_rank_one :
+  forall (R : rcfType) (n : nat) (eps : R) (iA A : 'M[R]_n) (alpha beta : R) (v : 'cV[R]_n),
+  0 <= eps -> iA *m A = 1%:M -> 0 < alpha -> 0 <= beta ->
+  let: (iA2, A2) := mo_rank_one eps iA A alpha beta v in
+  iA2 *m A2 = 1%:M /\
+  exists al be : R, [/\ 0 < al,
+     A2 *m A2^T = al *: (A *m A^T) + be *: (v *m v^T) &
+     (al, be) = (alpha, beta) \/ (al, be) = (1, 0)].
+Proof. move=> R n; exact: mo_rank_one_ok. Qed.
+Print Assumptions C14_mo_rank_one.
+
+(* StrategyActiveOnePlusLambda._rank1update: the three covariance branches *)
+Theorem C14_active_success_low :
+  forall (R : rcfType) (n : nat) (iA A : 'M[R]_n) (pc : 'cV[R]_n) (ccovp : R),
+  iA *m A = 1%:M -> 0 < ccovp < 1 ->
+  let w := iA *m pc in let nw := nrm2 w in nw != 0 ->
+  let a := Num.sqrt (1 - ccovp) in
+  let b := Num.sqrt (1 - ccovp) / nw * (Num.sqrt (1 + ccovp / (1 - ccovp) * nw) - 1) in
+  act_iA a b nw iA w *m act_A a b A w = 1%:M /\
+  act_A a b A w *m (act_A a b A w)^T = (1 - ccovp) *: (A *m A^T) + ccovp *: (pc *m pc^T).
+Proof. move=> R n; exact: act_branch_success_low. Qed.
+Print Assumptions C14_active_success_low.
+
+Theorem C14_active_success_high :
+  forall (R : rcfType) (n : nat) (iA A : 'M[R]_n) (pc : 'cV[R]_n) (ccovp cc : R),
+  iA *m A = 1%:M -> 0 < ccovp -> ccovp * (1 + cc * (2 - cc)) < 1 ->
+  let w := iA *m pc in let nw := nrm2 w in nw != 0 ->
+  let d := ccovp * (1 + cc * (2 - cc)) in
+  let a := Num.sqrt (1 - d) in
+  let b := Num.sqrt (1 - d) * (Num.sqrt (1 + ccovp * nw / (1 - d)) - 1) / nw in
+  act_iA a b nw iA w *m act_A a b A w = 1%:M /\
+  act_A a b A w *m (act_A a b A w)^T = (1 - d) *: (A *m A^T) + ccovp *: (pc *m pc^T).
+Proof. move=> R n; exact: act_branch_success_high. Qed.
+Print Assumptions C14_active_success_high.
+
+(* negative (active) update along the mutation step A z: beta = - ccovn; the clamp of ccovn keeps
+   the radicand >= 1/2, so the update is defined for every non-zero z *)
+Theorem C14_active_negative :
+  forall (R : rcfType) (n : nat) (iA A : 'M[R]_n) (z : 'cV[R]_n) (ccovn0 : R),
+  iA *m A = 1%:M -> 0 <= ccovn0 ->
+  let nw := nrm2 z in nw != 0 ->
+  let ccovn := clamp_ccovn ccovn0 nw in
+  let a := Num.sqrt (1 + ccovn) in
+  let b := Num.sqrt (1 + ccovn) / nw * (Num.sqrt (1 - ccovn / (1 + ccovn) * nw) - 1) in
+  [/\ 2^-1 <= 1 - ccovn / (1 + ccovn) * nw,
+      act_iA a b nw iA z *m act_A a b A z = 1%:M &
+      act_A a b A z *m (act_A a b A z)^T =
+        (1 + ccovn) *: (A *m A^T) - ccovn *: ((A *m z) *m (A *m z)^T)].
+Proof. move=> R n; exact: act_branch_negative. Qed.
+Print Assumptions C14_active_negative.
+
+(* _infeasible_update with one violated constraint: rank-one reduction along the constraint
+   vector; A' is invertible with the stated inverse (so numpy.linalg.inv, whose contract is
+   inv(A') A' = I, must return it) *)
+Theorem C14_constraint_single :
+  forall (R : rcfType) (n : nat) (iA A : 'M[R]_n) (v : 'cV[R]_n) (beta : R),
+  iA *m A = 1%:M -> beta < 1 ->
+  let w := iA *m v in let nw := nrm2 w in nw != 0 ->
+  let A2 := A - (beta / nw) *: (v *m w^T) in
+  let iA2 := iA + (beta / ((1 - beta) * nw)) *: (w *m (w^T *m iA)) in
+  iA2 *m A2 = 1%:M /\
+  A2 *m A2^T = A *m A^T + ((beta ^+ 2 - beta *+ 2) / nw) *: (v *m v^T).
+Proof. move=> R n; exact: constraint_single. Qed.
+Print Assumptions C14_constraint_single.
+
+(* ========================================================================================= *)
+(* multi-objective: selection and alignment                                                     *)
+(* ========================================================================================= *)
+(* whole fronts first, then repeated removal of the indicator's index from the mid front *)
+Theorem C14_select_rank_then_hv :
+  forall (T : Type) (Op : Ops T) mu (wvs : seq (seq T)) hv,
+  (mu < size wvs)%nat -> size (flatten (nd_fronts Op wvs)) = size wvs ->
+  let fronts := nd_fronts Op wvs in
+  let j := nfit mu fronts 0 in
+  let ch := flatten (take j fronts) in
+  (j < size fronts)%nat /\
+  mo_select Op mu wvs hv =
+    if size ch == mu then (ch, flatten (drop j fronts), [::])
+    else let fj := nth [::] fronts j in
+         let k := (mu - size ch)%nat in
+         let: (m', rem, seen) := hv_removals (size fj - k) fj hv [::] [::] in
+         (ch ++ m', flatten (drop j.+1 fronts) ++ rem, seen).
+Proof. move=> T Op; exact: mo_select_spec. Qed.
+Print Assumptions C14_select_rank_then_hv.
+
+(* exactly mu survivors and a partition of the candidates (weighted values of a common length d,
+   indicator indices in range) *)
+Theorem C14_select_exactly_mu :
+  forall (R : rcfType) (exp_ round_ : R -> R) d mu (wvs : seq (seq R)) hv,
+  all (fun w => size w == d) wvs -> (mu < size wvs)%nat ->
+  let fronts := nd_fronts (ROps exp_ round_) wvs in
+  let j := nfit mu fronts 0 in
+  let fj := nth [::] fronts j in
+  let k := (mu - size (flatten (take j fronts)))%nat in
+  hv_ok (size fj - k) fj hv ->
+  let: (chosen, not_chosen, seen) := mo_select (ROps exp_ round_) mu wvs hv in
+  size chosen = mu /\ perm_eq (chosen ++ not_chosen) (iota 0 (size wvs)).
+Proof. move=> R e r; exact: mo_select_exactly_mu_R. Qed.
+Print Assumptions C14_select_exactly_mu.
+
+(* the fronts are the non-domination ranks (peeling) *)
+Theorem C14_fronts_are_ranks :
+  forall (R : rcfType) (exp_ round_ : R -> R) d fuel (rest : seq (nat * seq R)),
+  all (fun x : nat * seq R => size x.2 == d) rest -> (size rest <= fuel)%nat ->
+  forall i, (i < size (peel (ROps exp_ round_) fuel rest))%nat ->
+    let F := peel (ROps exp_ round_) fuel rest in
+    let later := flatten (drop i F) in
+    (forall x, x \in nth [::] F i -> undominated (ROps exp_ round_) later x) /\
+    (forall y, y \in flatten (drop i.+1 F) -> ~~ undominated (ROps exp_ round_) later y).
+Proof. move=> R e r; exact: peel_sound. Qed.
+Print Assumptions C14_fronts_are_ranks.
+
+(* after update every per-parent list has one entry per surviving individual, in the order of the
+   new parents; entry i is the updated copy of its parent's entry for an offspring and the old
+   entry of the same parent for a surviving parent *)
+Theorem C14_params_aligned :
+  forall (T : Type) (Op : Ops T) P st (chosen not_chosen : seq (mind (T:=T))),
+  let st' := mo_update_core Op P st chosen not_chosen in
+  let: (recs, psL1, sgL1) := mo_loop_chosen Op P st chosen (ms_psucc st) (ms_sigmas st) in
+  let: (psL, sgL) := mo_loop_not_chosen Op P not_chosen psL1 sgL1 in
+  [/\ ms_parents st' = [seq mi_x ind | ind <- chosen] /\ ms_pfits st' = [seq mi_wv ind | ind <- chosen],
+      ms_A st' = [seq entry Op P st (@mr_A T) (ms_A st) [::] ind | ind <- chosen] /\
+      ms_invC st' = [seq entry Op P st (@mr_invC T) (ms_invC st) [::] ind | ind <- chosen],
+      ms_pc st' = [seq entry Op P st (@mr_pc T) (ms_pc st) [::] ind | ind <- chosen],
+      ms_psucc st' = [seq entry Op P st (@mr_psucc T) psL (c0 Op) ind | ind <- chosen] &
+      ms_sigmas st' = [seq entry Op P st (@mr_sigma T) sgL (c0 Op) ind | ind <- chosen]].
+Proof. move=> T Op; exact: mo_update_core_aligned. Qed.
+Print Assumptions C14_params_aligned.
+
+Theorem C14_mo_psucc_in_01_sigma_pos :
+  forall (R : rcfType) (exp_ round_ : R -> R), (forall x, 0 < exp_ x) ->
+  forall P st (chosen not_chosen : seq (mind (T:=R))),
+  0 <= mp_cp P <= 1 ->
+  all (@in01 R) (ms_psucc st) -> all (@pos R) (ms_sigmas st) -> size (ms_sigmas st) = size (ms_psucc st) ->
+  all (fun ind : mind (T:=R) => (mi_pidx ind < size (ms_sigmas st))%nat) chosen ->
+  let st' := mo_update_core (ROps exp_ round_) P st chosen not_chosen in
+  all (@in01 R) (ms_psucc st') /\ all (@pos R) (ms_sigmas st').
+Proof. move=> R e r ep P st ch nc cp; exact: mo_update_core_ranges. Qed.
+Print Assumptions C14_mo_psucc_in_01_sigma_pos.
+
+(* ========================================================================================= *)
+(* non-vacuity: the hypotheses are satisfiable                                                   *)
+(* ========================================================================================= *)
+Example C14_nonvacuous_rank_one (R : rcfType) :
+  exists (A iA : 'M[R]_2) (v : 'cV[R]_2) (alpha beta : R),
+  [/\ iA *m A = 1%:M, nrm2 (iA *m v) != 0, 0 < alpha & 0 < 1 + beta / alpha * nrm2 (iA *m v)].
+Proof.
+have E : nrm2 (1%:M *m \col_(i < 2) 1) = 2%:R :> R.
+  by rewrite mul1mx nrm2_sum big_ord_recl big_ord1 !mxE expr1n.
+exists 1%:M, 1%:M, (\col_i 1), 1, 1; rewrite E mul1mx; split=> //.
+- by rewrite pnatr_eq0.
+- exact: ltr01.
+- by rewrite divr1 mul1r -[1]/(1%:R) -natrD ltr0n.
+Qed.
+
+Example C14_nonvacuous_exp (R : rcfType) : exists exp_ : R -> R, forall x, 0 < exp_ x.
+Proof. by exists (fun _ => 1) => x; exact: ltr01. Qed.
+
+Example C14_nonvacuous_select : hv_ok 2 [:: 3; 5; 7]%nat [:: 1; 0]%nat.
+Proof. by []. Qed.
